@@ -143,6 +143,11 @@ func (w *W) Mine(key string) bool {
 	return true
 }
 
+// Owns reports whether this worker would own the key (no side effects).
+func (w *W) Owns(key string) bool {
+	return int(hash64(w.family+"\x00"+key)%uint64(w.N)) == w.Shard
+}
+
 // Expired reports whether the internal deadline has passed; the caller stops
 // enumerating and the run is reported as not exhaustive.
 func (w *W) Expired(note string) bool {
@@ -237,7 +242,7 @@ func (w *W) Fail(payload, sig, detail string) {
 		}
 	}
 	wit := payload
-	if c.Shrink != nil && c.Exec != nil {
+	if c.Shrink != nil && c.Exec != nil && os.Getenv("VERIF_NOSHRINK") == "" && !time.Now().After(w.deadline.Add(2*time.Minute)) {
 		wit = c.Shrink(payload, sig)
 		if s2, _ := c.Exec(wit); s2 != sig {
 			w.HarnessError("shrinker changed the signature on %s: %q became %q", clip(payload, 400), sig, s2)
